@@ -62,6 +62,10 @@ def build_case(rng):
     for p in fixed:   # boundary: a parameter fixed at exactly 0 where that is admissible
         if (cname, p) in ZERO_OK and rng.random() < 0.5:
             fixed[p] = rng.choice([0, 0.0])
+    for p in fixed:   # whole-number values written as Python ints (f_lambda_=2, f_beta=3): the same values as 2.0, 3.0
+        if fixed[p] != 0 and rng.random() < 0.3 and not (cname == "VonMisesDistribution" and p == "mu"):
+            fixed[p] = rng.choice([1, 2, 3])
+            th[p] = fixed[p]
     malform = rng.choice([None, None, None, None, "unknown", "both", "neither"])
     return {"cls": cname, "theta": th, "fixed": fixed, "malform": malform, "seed": rng.randrange(10 ** 6),
             "gs": [rng.uniform(0.1, 6) for _ in range(rng.randrange(1, 5))]}
